@@ -54,6 +54,15 @@ CLAIMS["C09"] = dict(
     technique="table agreement + flag-read polarity classification with interprocedural region purity",
     design="DESIGN.md section 4, C09")
 
+CLAIMS["C01"] = dict(
+    text="Decides the domain, dispatch and internal-consistency clauses of the opcode loop: refusal domain == handler domain, "
+         "exhaustive dispatch of every opcodetype enumerator, stack-size guard vs actual access depth in every case group "
+         "(contradiction rule, incl. error codes and computed depths tested at the same stack height), exception-to-failed-step "
+         "conversion, balance check and re-initialisation at every script switch, disabled-opcode gate before the executed test. "
+         "The per-opcode value semantics (what OP_SUB computes) are NOT decided: no second implementation exists to compare with.",
+    technique="enumerator/case-label agreement, guard-vs-access contradiction analysis on the CFG, exception-escape analysis",
+    design="DESIGN.md section 4, C01")
+
 NOT_YET = "check not built yet in this round (see DESIGN.md section 7 build order)"
 
 NA = {
